@@ -27,72 +27,120 @@ func c09Issuance(c *kit.Ctx, a *c09Anchors) {
 	c.Analysed(f)
 	info := f.Info()
 	msg := msgParam(f)
-	var credCall, issueCall *ast.CallExpr
-	for _, call := range f.AllCalls(false) {
-		if f.CalleeFunc(call) == a.credFn {
-			credCall = call
+	// the credential check and the issuer may be called from the handler or from
+	// one of its helpers (interpreted inline)
+	nCred, nIssue := 0, 0
+	var issueCall *ast.CallExpr
+	for _, g := range c09Closure(f) {
+		if g.Body == nil || g == a.credFn {
+			continue
 		}
-		if a.issuerObjs[kit.Callee(info, call)] {
-			if issueCall != nil {
-				c.Fatalf("%s issues tokens at two sites", f.Name)
+		for _, call := range g.AllCalls(false) {
+			if g.CalleeFunc(call) == a.credFn {
+				nCred++
 			}
-			issueCall = call
+			if a.issuerObjs[kit.Callee(info, call)] {
+				nIssue++
+				issueCall = call
+			}
 		}
 	}
-	if credCall == nil {
-		c.Fatalf("%s issues a token but never calls the credential check %s", f.Name, a.credFn.Name)
+	if nCred == 0 {
+		c.Fatalf("%s issues a token but neither it nor its helpers call the credential check %s", f.Name, a.credFn.Name)
+	}
+	if nIssue != 1 {
+		c.Fatalf("%s and its helpers issue tokens at %d sites", f.Name, nIssue)
+	}
+
+	fl := newC09Flow(f)
+	fl.inline = c09SamePkg(a.credFn)
+	isMsg := func(e ast.Expr) bool { return fl.obj(e) == types.Object(msg) }
+	isReplySubject := func(e ast.Expr) bool {
+		sel, ok := ast.Unparen(e).(*ast.SelectorExpr)
+		if !ok || !isMsg(sel.X) {
+			return false
+		}
+		v, ok := kit.ObjOf(info, sel).(*types.Var)
+		return ok && v.IsField() && c09IsString(v.Type()) && v.Name() == "Reply"
 	}
 	// a reply that carries a payload: a call that is handed msg.Reply and a
-	// non-nil payload, msg.Respond(x), or a local closure that always does so
-	var payloadReply func(g *kit.Func, call *ast.CallExpr) bool
-	payloadReply = func(g *kit.Func, call *ast.CallExpr) bool {
+	// non-nil payload, or msg.Respond(x)
+	mentionsReply := func(e ast.Expr) bool {
+		found := false
+		ast.Inspect(fl.st.Resolve(e), func(n ast.Node) bool {
+			if x, ok := n.(ast.Expr); ok && isReplySubject(x) {
+				found = true
+			}
+			return !found
+		})
+		return found
+	}
+	payloadReply := func(call *ast.CallExpr) bool {
 		hasReply, hasPayload := false, false
 		for _, arg := range call.Args {
 			switch {
-			case isMsgField(g, arg, msg, "Reply"):
+			case mentionsReply(arg):
 				hasReply = true
+				if _, isSel := ast.Unparen(fl.st.Resolve(arg)).(*ast.SelectorExpr); !isSel {
+					hasPayload = true // a message value built around the reply subject
+				}
 			case kit.IsNilIdent(info, arg):
 			default:
 				hasPayload = true
 			}
 		}
-		if kit.CallIs(info, call, natsPkg+".(*Msg).Respond") {
-			if sel, ok := ast.Unparen(call.Fun).(*ast.SelectorExpr); ok && kit.ObjOf(info, sel.X) == types.Object(msg) {
-				hasReply = true
-			}
+		// msg.Respond(x), msg.RespondMsg(m): methods of the request message
+		if sel, ok := ast.Unparen(call.Fun).(*ast.SelectorExpr); ok && isMsg(sel.X) && c09NatsRecv(kit.Callee(info, call)) {
+			hasReply = true
 		}
-		if hasReply && hasPayload {
-			return true
-		}
-		if cf := g.CalleeFunc(call); cf != nil && cf.Lit != nil && cf != g {
-			return alwaysCalls(cf, func(c2 *ast.CallExpr) bool { return payloadReply(cf, c2) })
-		}
-		return false
+		return hasReply && hasPayload
 	}
-
-	fl := newC09Flow(f)
 	fl.roles = func(call *ast.CallExpr) []string {
-		switch call {
-		case credCall:
+		switch {
+		case fl.cur().CalleeFunc(call) == a.credFn:
 			return []string{"cn", "ce"}
-		case issueCall:
+		case a.issuerObjs[kit.Callee(info, call)]:
 			return []string{"tokv", "ie"}
 		}
 		return nil
 	}
-	var badIssue *kit.S
+	// the reply may be sent by code that is not interpreted
+	fl.opaque = func(call *ast.CallExpr, s kit.S) []string {
+		for _, arg := range call.Args {
+			r := fl.st.Resolve(arg)
+			if isMsg(r) || isReplySubject(r) {
+				return []string{"reply"}
+			}
+		}
+		return nil
+	}
+	var badIssue, murkyIssue *kit.S
 	okIssue := 0
 	fl.onCall = func(call *ast.CallExpr, n ast.Node, s kit.S) []kit.S {
 		switch {
-		case call == issueCall:
-			if s.Get("a:ce") == "F" && s.Get("a:cn.nonempty") == "T" {
+		case a.issuerObjs[kit.Callee(info, call)]:
+			ce, cn := s.Get("a:ce"), s.Get("a:cn.nonempty")
+			switch {
+			case ce == "F" && cn == "T":
 				okIssue++
-			} else if badIssue == nil {
-				s2 := s
-				badIssue = &s2
+			case ce == "T" || cn == "F":
+				if badIssue == nil {
+					s2 := s
+					badIssue = &s2
+				}
+			case (ce == "" && s.Get("opq:ce") == "1") || (cn == "" && s.Get("opq:cn") == "1"):
+				if murkyIssue == nil {
+					s2 := s
+					murkyIssue = &s2
+				}
+			default:
+				if badIssue == nil {
+					s2 := s
+					badIssue = &s2
+				}
 			}
 			return []kit.S{s.Set("issued", "1")}
-		case payloadReply(f, call):
+		case payloadReply(call):
 			if s.Get("issued") == "1" {
 				return []kit.S{s.Set("delivered", "1")}
 			}
@@ -106,23 +154,29 @@ func c09Issuance(c *kit.Ctx, a *c09Anchors) {
 	case badIssue != nil:
 		o.Violation("the token issuer at %s is reachable with: credential-check error %s, node list %s",
 			f.At(issueCall), c09Fact(*badIssue, "a:ce", "non-nil", "nil", "not tested"), c09Fact(*badIssue, "a:cn.nonempty", "non-empty", "empty", "not tested for emptiness"))
+	case murkyIssue != nil:
+		o.Undecided("the token issuer is reached on a path where the credential check's results were tested by an expression or function that was not interpreted")
 	case okIssue == 0:
-		o.Violation("the token issuer is unreachable: no user can log in")
+		o.Undecided("the token issuer was not reached on any interpreted path")
 	default:
 		o.OK("dominated by the nil edge of the credential-check error and the non-empty edge of its node list")
 	}
 
 	o2 := r4.Ob(f, issueCall, "token delivery", "once a token has been issued without error, a payload is published to the request's reply subject before the handler ends")
 	bad := ""
+	murky := false
 	var badExit kit.Exit
 	good := 0
 	for _, e := range res.Exits {
 		if e.State.Get("issued") != "1" || e.State.Get("a:ie") == "T" {
 			continue
 		}
-		if e.State.Get("delivered") == "1" {
+		switch {
+		case e.State.Get("delivered") == "1":
 			good++
-		} else if bad == "" {
+		case e.State.Get("opq:reply") == "1" || e.State.Get("opq:tokv") == "1" && false:
+			murky = true
+		case bad == "":
 			bad = "an exit is reachable after a successful issuance without any payload published to msg.Reply"
 			badExit = e
 		}
@@ -130,8 +184,10 @@ func c09Issuance(c *kit.Ctx, a *c09Anchors) {
 	switch {
 	case bad != "":
 		o2.Violation("%s: the valid user never receives the token", bad).WithPath(res.PathTo(badExit))
+	case murky:
+		o2.Undecided("after the issuance the message or its reply subject is handed to a function that was not interpreted")
 	case good == 0:
-		o2.Violation("no exit delivers an issued token")
+		o2.Undecided("no exit after an issuance was found")
 	default:
 		o2.OK("%d exit state(s) after issuance, all after a payload reply", good)
 	}
@@ -248,14 +304,16 @@ func c09CredCheck(c *kit.Ctx, a *c09Anchors, m *storeModel) {
 		}
 	}
 	var emailParam, passParam types.Object
-	matchAtom := func(e ast.Expr) (string, bool, bool) {
+	// resolve maps an expression to the object it denotes; inside an inlined
+	// helper the helper's parameters are mapped to the caller's arguments
+	matchAtomR := func(e ast.Expr, resolve func(ast.Expr) types.Object) (string, bool, bool) {
 		x, y, op, ok := kit.CmpAtom(e)
 		if !ok || (op != token.EQL && op != token.NEQ) {
 			return "", false, false
 		}
 		for i := 0; i < 2; i++ {
 			if sel, ok := ast.Unparen(x).(*ast.SelectorExpr); ok {
-				if po := kit.ObjOf(info, y); po != nil && params[po] {
+				if po := resolve(y); po != nil && params[po] {
 					switch kit.ObjOf(info, sel) {
 					case types.Object(emailF):
 						emailParam = po
@@ -270,34 +328,60 @@ func c09CredCheck(c *kit.Ctx, a *c09Anchors, m *storeModel) {
 		}
 		return "", false, false
 	}
-	hasMatchLeaf := func(cond ast.Expr) bool {
-		found := false
-		ast.Inspect(cond, func(n ast.Node) bool {
-			if e, ok := n.(ast.Expr); ok {
-				if _, _, ok := matchAtom(e); ok {
-					found = true
+	static := func(e ast.Expr) types.Object { return kit.ObjOf(info, e) }
+	// readsCred: the function (or one it calls) reads the e-mail / password field
+	readsCred := map[*kit.Func]bool{}
+	for _, g := range c.P.Funcs("store") {
+		if g.Body == nil {
+			continue
+		}
+		ast.Inspect(g.Body, func(n ast.Node) bool {
+			if sel, ok := n.(*ast.SelectorExpr); ok {
+				if o := kit.ObjOf(info, sel); o == types.Object(emailF) || o == types.Object(passF) {
+					readsCred[g] = true
 				}
 			}
-			return !found
+			return true
 		})
-		return found
 	}
-	// loop1: the range loop around the comparison
+	matchHelper := func(g *kit.Func) bool {
+		if g == f || g == cr.pathFn {
+			return false
+		}
+		for _, h := range c09Closure(g) {
+			if readsCred[h] {
+				return true
+			}
+		}
+		return false
+	}
+	// loop1: the range loop around the comparison (or around the call of the helper that compares)
 	ast.Inspect(f.Body, func(n ast.Node) bool {
 		if _, ok := n.(*ast.FuncLit); ok {
 			return false
 		}
-		if e, ok := n.(ast.Expr); ok && cr.loop1 == nil {
-			if id, _, ok := matchAtom(e); ok && id == "em" {
-				if l, ok := f.Enclosing(e, func(x ast.Node) bool {
-					switch x.(type) {
-					case *ast.RangeStmt, *ast.ForStmt:
-						return true
-					}
-					return false
-				}).(*ast.RangeStmt); ok {
-					cr.loop1 = l
+		e, ok := n.(ast.Expr)
+		if !ok || cr.loop1 != nil {
+			return true
+		}
+		hit := false
+		if id, _, ok := matchAtomR(e, static); ok && id == "em" {
+			hit = true
+		}
+		if call, isCall := e.(*ast.CallExpr); isCall {
+			if cf := f.CalleeFunc(call); cf != nil && cf.Pkg == f.Pkg && matchHelper(cf) {
+				hit = true
+			}
+		}
+		if hit {
+			if l, ok := f.Enclosing(e, func(x ast.Node) bool {
+				switch x.(type) {
+				case *ast.RangeStmt, *ast.ForStmt:
+					return true
 				}
+				return false
+			}).(*ast.RangeStmt); ok {
+				cr.loop1 = l
 			}
 		}
 		return true
@@ -314,11 +398,25 @@ func c09CredCheck(c *kit.Ctx, a *c09Anchors, m *storeModel) {
 			}
 			return false
 		}
-		var bad []string
+		var bad, murky []string
 		for _, val := range [][2]string{{"T", "T"}, {"T", "F"}, {"F", "T"}, {"F", "F"}} {
 			both := val[0] == "T" && val[1] == "T"
 			fl := newC09Flow(f)
-			fl.atom = func(e ast.Expr, s kit.S) (string, bool, bool) { return matchAtom(e) }
+			fl.inline = func(cf *kit.Func, call *ast.CallExpr) bool { return matchHelper(cf) }
+			dyn := func(e ast.Expr) types.Object { return fl.obj(e) }
+			fl.atom = func(e ast.Expr, s kit.S) (string, bool, bool) { return matchAtomR(e, dyn) }
+			hasMatchLeaf := func(cond ast.Expr) bool {
+				found := false
+				ast.Inspect(cond, func(n ast.Node) bool {
+					if e, ok := n.(ast.Expr); ok {
+						if _, _, ok := matchAtomR(e, dyn); ok {
+							found = true
+						}
+					}
+					return !found
+				})
+				return found
+			}
 			fl.afterCond = func(cond ast.Expr, t, fs []kit.S) ([]kit.S, []kit.S) {
 				if !hasMatchLeaf(cond) {
 					return t, fs
@@ -331,10 +429,14 @@ func c09CredCheck(c *kit.Ctx, a *c09Anchors, m *storeModel) {
 				}
 				return t, fs
 			}
-			kept, skipped := false, false
+			kept, keptBlind, skipped := false, false, false
 			fl.onCall = func(call *ast.CallExpr, n ast.Node, s kit.S) []kit.S {
 				if isKeep(call) {
-					kept = true
+					if s.Get("cmp") == "1" {
+						kept = true
+					} else {
+						keptBlind = true // kept on a path that evaluated no recognised comparison
+					}
 					return []kit.S{s.Set("kept", "1")}
 				}
 				return nil
@@ -359,21 +461,45 @@ func c09CredCheck(c *kit.Ctx, a *c09Anchors, m *storeModel) {
 			c.AddValuations(1)
 			name := fmt.Sprintf("e-mail %s, password %s", map[string]string{"T": "equal", "F": "different"}[val[0]], map[string]string{"T": "equal", "F": "different"}[val[1]])
 			switch {
+			case keptBlind:
+				murky = append(murky, name+": the candidate is kept on a path that evaluated no recognised comparison")
 			case both && !kept:
-				bad = append(bad, name+": the candidate is never kept")
+				murky = append(murky, name+": no interpreted path keeps the candidate")
 			case both && skipped:
 				bad = append(bad, name+": the candidate can be dropped after the comparison")
 			case !both && kept:
 				bad = append(bad, name+": the candidate is kept")
 			}
 		}
+		// is a credential field never even read?
+		readE, readP := false, false
+		for _, g := range c09Closure(f) {
+			if g.Body == nil {
+				continue
+			}
+			ast.Inspect(g.Body, func(n ast.Node) bool {
+				if sel, ok := n.(*ast.SelectorExpr); ok {
+					switch kit.ObjOf(info, sel) {
+					case types.Object(emailF):
+						readE = true
+					case types.Object(passF):
+						readP = true
+					}
+				}
+				return true
+			})
+		}
 		switch {
+		case !readE || !readP:
+			oM.Violation("%s and the functions it calls never read the user's %s: that credential is not checked", f.Name, map[bool]string{true: passF.Name(), false: emailF.Name()}[readE])
 		case emailParam == nil || passParam == nil:
-			oM.Violation("%s compares %s with a string parameter: %v, %s: %v — a credential is not checked", f.Name, emailF.Name(), emailParam != nil, passF.Name(), passParam != nil)
+			oM.Undecided("%s reads both credential fields, but a comparison with a string parameter was recognised for %s: %v, %s: %v", f.Name, emailF.Name(), emailParam != nil, passF.Name(), passParam != nil)
 		case emailParam == passParam:
 			oM.Violation("e-mail and password are compared with the same parameter %s", emailParam.Name())
 		case len(bad) > 0:
 			oM.Violation("%s", strings.Join(bad, "; "))
+		case len(murky) > 0:
+			oM.Undecided("%s", strings.Join(murky, "; "))
 		default:
 			oM.OK("kept exactly under %s == %s ∧ %s == %s", emailF.Name(), emailParam.Name(), passF.Name(), passParam.Name())
 		}
@@ -388,10 +514,15 @@ func c09CredCheck(c *kit.Ctx, a *c09Anchors, m *storeModel) {
 			}
 			return nil
 		}
-		bad := ""
+		bad, murky := "", ""
 		fl.onCall = func(call *ast.CallExpr, n ast.Node, s kit.S) []kit.S {
 			for _, rc := range cr.results {
-				if rc == call && s.Get("a:pathok") != "T" && bad == "" {
+				if rc != call || s.Get("a:pathok") == "T" {
+					continue
+				}
+				if s.Get("a:pathok") == "" && s.Get("opq:pathok") == "1" {
+					murky = fmt.Sprintf("the user is added to the result at %s after the search's answer went through a test or function that was not interpreted", f.At(call))
+				} else if bad == "" {
 					bad = fmt.Sprintf("the user is added to the result at %s although the live-path search answered %s", f.At(call), c09Fact(s, "a:pathok", "true", "false", "nothing that was tested"))
 				}
 			}
@@ -415,15 +546,21 @@ func c09CredCheck(c *kit.Ctx, a *c09Anchors, m *storeModel) {
 			if kit.IsNilIdent(info, r0) {
 				continue
 			}
-			if ro := kit.ObjOf(info, r0); ro != cr.s2 && bad == "" {
-				bad = fmt.Sprintf("`%s` at %s returns `%s`, not the list filtered by the live-path search", f.Str(e.Return), f.At(e.Return), f.Str(r0))
+			switch ro := kit.ObjOf(info, r0); {
+			case ro == cr.s2:
+			case ro == cr.s1 && bad == "":
+				bad = fmt.Sprintf("`%s` at %s returns the unfiltered candidates `%s`, not the list filtered by the live-path search", f.Str(e.Return), f.At(e.Return), f.Str(r0))
+			case murky == "":
+				murky = fmt.Sprintf("cannot relate the returned `%s` at %s to the filtered list", f.Str(r0), f.At(e.Return))
 			}
 		}
 		switch {
-		case !argOK:
-			o.Violation("the live-path search is not asked about the candidate of the current iteration: `%s`", f.Str(cr.pathCall))
 		case bad != "":
 			o.Violation("%s", bad)
+		case !argOK:
+			o.Undecided("cannot relate the argument of `%s` to the candidate of the current iteration", f.Str(cr.pathCall))
+		case murky != "":
+			o.Undecided("%s", murky)
 		default:
 			o.OK("result appends dominated by the true edge of the search; the filtered list is returned")
 		}
@@ -461,24 +598,43 @@ func c09LivePath(c *kit.Ctx, a *c09Anchors, m *storeModel, r5 *kit.Rule, cr *c09
 		c.Fatalf("%s: the recursive call is not inside a range loop with a value variable", pf.Name)
 	}
 	edgeVar := kit.ObjOf(info, outer.Value)
-	// inner loop: range over <edge>.<points field>
-	var inner *ast.RangeStmt
-	var pointsF types.Object
-	ast.Inspect(outer.Body, func(n ast.Node) bool {
-		if r, ok := n.(*ast.RangeStmt); ok && inner == nil {
-			if sel, ok := ast.Unparen(r.X).(*ast.SelectorExpr); ok && kit.ObjOf(info, sel.X) == edgeVar &&
-				kit.IsNamedType(info.TypeOf(r.X), dataPkg, "Points") {
-				inner = r
-				pointsF = kit.ObjOf(info, sel)
-			}
+	// the points of an edge may be scanned in the search itself or in a predicate
+	// it calls: every range over a data.Points field of a value of the edge's type
+	// in package store yields "edge point" variables
+	edgeT := edgeVar.Type()
+	sc := &scenario{c: c, name: "live-path", f: pf, batch: map[types.Object]bool{}, elems: map[types.Object]bool{}}
+	isPointsOfEdge := func(g *kit.Func, r *ast.RangeStmt) bool {
+		sel, ok := ast.Unparen(r.X).(*ast.SelectorExpr)
+		if !ok || !kit.IsNamedType(info.TypeOf(r.X), dataPkg, "Points") {
+			return false
 		}
-		return true
-	})
-	if inner == nil {
-		c.Fatalf("%s: no range loop over the points of the edge being examined", pf.Name)
+		t := info.TypeOf(sel.X)
+		if t == nil {
+			return false
+		}
+		if p, isPtr := t.(*types.Pointer); isPtr {
+			t = p.Elem()
+		}
+		et := edgeT
+		if p, isPtr := et.(*types.Pointer); isPtr {
+			et = p.Elem()
+		}
+		return types.Identical(t, et)
 	}
-	sc := &scenario{c: c, name: "live-path", f: pf, batch: map[types.Object]bool{pointsF: true}}
-	sc.prepare()
+	for _, g := range c.P.Funcs("store") {
+		if g.Body == nil {
+			continue
+		}
+		ast.Inspect(g.Body, func(n ast.Node) bool {
+			if r, ok := n.(*ast.RangeStmt); ok && r.Value != nil && isPointsOfEdge(g, r) {
+				if o := kit.ObjOf(info, r.Value); o != nil {
+					sc.elems[o] = true
+				}
+			}
+			return true
+		})
+	}
+	var inner ast.Node = outer
 	isTombLeaf := func(e ast.Expr) (eq bool, ok bool) {
 		x, y, op, isCmp := kit.CmpAtom(e)
 		if !isCmp || (op != token.EQL && op != token.NEQ) {
@@ -508,14 +664,21 @@ func c09LivePath(c *kit.Ctx, a *c09Anchors, m *storeModel, r5 *kit.Rule, cr *c09
 		return found
 	}
 	nTomb := 0
-	ast.Inspect(pf.Body, func(n ast.Node) bool {
-		if e, ok := n.(ast.Expr); ok {
-			if _, ok := isTombLeaf(e); ok {
-				nTomb++
-			}
+	tombFns := map[*kit.Func]bool{}
+	for _, g := range c09Closure(pf) {
+		if g.Body == nil {
+			continue
 		}
-		return true
-	})
+		ast.Inspect(g.Body, func(n ast.Node) bool {
+			if e, ok := n.(ast.Expr); ok {
+				if _, ok := isTombLeaf(e); ok {
+					nTomb++
+					tombFns[g] = true
+				}
+			}
+			return true
+		})
+	}
 	if nTomb == 0 {
 		c.Fatalf("%s: no comparison of an edge point's type with the tombstone point type (tombstone test not found)", pf.Name)
 	}
@@ -523,6 +686,39 @@ func c09LivePath(c *kit.Ctx, a *c09Anchors, m *storeModel, r5 *kit.Rule, cr *c09
 	upField := c09EdgeColumnField(c, m, "up")
 
 	fl := newC09Flow(pf)
+	// predicates on the edge are interpreted inline
+	fl.inline = func(cf *kit.Func, call *ast.CallExpr) bool {
+		for _, g := range c09Closure(cf) {
+			if tombFns[g] {
+				return true
+			}
+		}
+		return false
+	}
+	isEdge := func(e ast.Expr) bool {
+		e = ast.Unparen(e)
+		if u, ok := e.(*ast.UnaryExpr); ok && u.Op == token.AND {
+			e = u.X
+		}
+		if sel, ok := e.(*ast.SelectorExpr); ok {
+			e = sel.X
+		}
+		return fl.obj(e) == edgeVar
+	}
+	// the edge handed to code that is not interpreted: it may test the tombstone
+	fl.opaque = func(call *ast.CallExpr, s kit.S) []string {
+		args := append([]ast.Expr{}, call.Args...)
+		if sel, ok := ast.Unparen(call.Fun).(*ast.SelectorExpr); ok {
+			args = append(args, sel.X)
+		}
+		for _, arg := range args {
+			if isEdge(arg) {
+				return []string{"edge"}
+			}
+		}
+		return nil
+	}
+	sawInner := false
 	// the query whose rows the outer loop ranges over
 	var queryCall *ast.CallExpr
 	var querySite *kit.SQLSite
@@ -547,7 +743,7 @@ func c09LivePath(c *kit.Ctx, a *c09Anchors, m *storeModel, r5 *kit.Rule, cr *c09
 			return "", false, false
 		}
 		for i := 0; i < 2; i++ {
-			if sel, ok := ast.Unparen(x).(*ast.SelectorExpr); ok && kit.ObjOf(info, sel.X) == edgeVar {
+			if sel, ok := ast.Unparen(x).(*ast.SelectorExpr); ok && fl.obj(sel.X) == edgeVar {
 				if v, isC := kit.ConstString(info, y); isC && v == "root" {
 					rootField = kit.ObjOf(info, sel)
 					return "root", op == token.NEQ, true
@@ -609,11 +805,21 @@ func c09LivePath(c *kit.Ctx, a *c09Anchors, m *storeModel, r5 *kit.Rule, cr *c09
 		if br.Kind != kit.BrRange {
 			return nil, nil, false
 		}
-		switch br.Range {
-		case outer:
-			base := s.Del("te").Del("it").Del("a:root").Del("a:rec").Del("a:rerr").Del("tombhit")
+		isInner := false
+		if br.Range != outer && br.Range.Value != nil && sc.elems[kit.ObjOf(info, br.Range.Value)] {
+			if sel, ok := ast.Unparen(br.Range.X).(*ast.SelectorExpr); ok && fl.obj(sel.X) == edgeVar {
+				isInner = true
+			}
+		}
+		switch {
+		case br.Range == outer && !fl.inlined():
+			base := s.Del("te").Del("it").Del("a:root").Del("a:rec").Del("a:rerr").Del("tombhit").Del("opq:edge")
 			return []kit.S{base.Set("te", "1"), base.Set("te", "z"), base.Set("te", "0")}, []kit.S{base}, true
-		case inner:
+		case isInner:
+			sawInner = true
+			if inner == ast.Node(outer) {
+				inner = br.Range
+			}
 			te := s.Get("te")
 			if (te == "1" || te == "z") && s.Get("it") == "" {
 				return []kit.S{s.Set("it", "1")}, nil, true // the edge carries the point
@@ -637,6 +843,7 @@ func c09LivePath(c *kit.Ctx, a *c09Anchors, m *storeModel, r5 *kit.Rule, cr *c09
 		return fl.st.ReturnsNil(e.Return, e.State) == "nonnil"
 	}
 	skipBad, truthBad := "", ""
+	skipMurky := false
 	var skipExit, truthExit, negExit kit.Exit
 	canTrue, canStep := false, false // base case (root reached) / inductive step (deeper search answered true)
 	negBad := ""
@@ -647,7 +854,9 @@ func c09LivePath(c *kit.Ctx, a *c09Anchors, m *storeModel, r5 *kit.Rule, cr *c09
 		if errNonNil(e) {
 			continue
 		}
-		if e.State.Get("te") == "1" && skipBad == "" {
+		if e.State.Get("te") == "1" && e.State.Get("opq:edge") == "1" {
+			skipMurky = true
+		} else if e.State.Get("te") == "1" && skipBad == "" {
 			skipBad = fmt.Sprintf("`%s` at %s ends the search while a deleted (tombstone=1) edge is being examined: the remaining edges are never tried", pf.Str(e.Return), pf.At(e.Return))
 			skipExit = e
 		}
@@ -676,17 +885,23 @@ func c09LivePath(c *kit.Ctx, a *c09Anchors, m *storeModel, r5 *kit.Rule, cr *c09
 	testBad = uniqStrings(testBad)
 
 	oT := r5.Ob(pf, inner, "tombstone test", "true for an edge point of type tombstone with value 1, false with value 0")
-	if len(testBad) > 0 {
+	switch {
+	case len(testBad) > 0:
 		oT.Violation("%s", strings.Join(testBad, "; "))
-	} else {
+	case !sawInner:
+		oT.Undecided("no loop over the points of the examined edge was interpreted (the tombstone test was not exercised)")
+	default:
 		oT.OK("decided under the three per-edge scenarios")
 	}
 	c.AddValuations(3)
 
 	oS := r5.Ob(pf, outer, "tombstoned edge skipped", "while a deleted edge is examined no answer is returned (except an error): the search moves on to the next edge")
-	if skipBad != "" {
+	switch {
+	case skipBad != "" && sawInner:
 		oS.Violation("%s", skipBad).WithPath(res.PathTo(skipExit))
-	} else {
+	case skipBad != "" || skipMurky || !sawInner:
+		oS.Undecided("the examined edge is tested for deletion by code that was not interpreted")
+	default:
 		oS.OK("every path from the tombstone test's true edge reaches the next iteration")
 	}
 
@@ -701,8 +916,10 @@ func c09LivePath(c *kit.Ctx, a *c09Anchors, m *storeModel, r5 *kit.Rule, cr *c09
 	switch {
 	case truthBad != "":
 		oR.Violation("%s", truthBad).WithPath(res.PathTo(truthExit))
+	case !canTrue && rootField != nil:
+		oR.Violation("%s compares the edge's parent with the root sentinel but never answers true on that ground: no user can log in", pf.Name)
 	case !canTrue:
-		oR.Violation("%s never answers true when a live edge's parent is the root sentinel: no user can log in", pf.Name)
+		oR.Undecided("no comparison of the examined edge's parent with the root sentinel was recognised in %s", pf.Name)
 	case !canStep:
 		oR.Violation("%s never passes on the true answer of the deeper search: only users attached directly below the root can log in", pf.Name)
 	default:
@@ -710,9 +927,9 @@ func c09LivePath(c *kit.Ctx, a *c09Anchors, m *storeModel, r5 *kit.Rule, cr *c09
 	}
 
 	oD := r5.Ob(pf, recCall, "walk direction", "rows are selected by down = the searched id; the recursion and the root test use the field scanned from column up")
-	var dbad []string
+	var dbad, dmurky []string
 	if querySite == nil {
-		dbad = append(dbad, "no SELECT on table edges inside the search")
+		dmurky = append(dmurky, "no SELECT on table edges found directly inside the search")
 	} else {
 		for _, st := range querySite.Stmts {
 			if len(st.Where) != 1 || st.Where[0] != "down" {
@@ -728,27 +945,36 @@ func c09LivePath(c *kit.Ctx, a *c09Anchors, m *storeModel, r5 *kit.Rule, cr *c09
 			}
 		}
 		if !idOK {
-			dbad = append(dbad, "the query is not bound to the searched id parameter")
-		}
-		if rng := kit.ObjOf(info, outer.X); rng == nil || len(querySite.Args) == 0 {
-			dbad = append(dbad, "the loop does not range over the query result")
+			dmurky = append(dmurky, "cannot relate the bound argument of the query to the searched id parameter")
 		}
 	}
 	recField := types.Object(nil)
-	if len(recCall.Args) == 1 {
-		if sel, ok := ast.Unparen(recCall.Args[0]).(*ast.SelectorExpr); ok && kit.ObjOf(info, sel.X) == edgeVar {
+	var recArg ast.Expr
+	for i, p := range pf.Params() {
+		if c09IsString(p.Type()) && i < len(recCall.Args) {
+			recArg = recCall.Args[i]
+		}
+	}
+	if recArg != nil {
+		if sel, ok := ast.Unparen(recArg).(*ast.SelectorExpr); ok && kit.ObjOf(info, sel.X) == edgeVar {
 			recField = kit.ObjOf(info, sel)
 		}
 	}
-	if recField != types.Object(upField) {
-		dbad = append(dbad, fmt.Sprintf("the recursion follows `%s`, not the field scanned from column up (%s)", pf.Str(recCall.Args[0]), upField.Name()))
+	switch {
+	case recField == nil:
+		dmurky = append(dmurky, "cannot relate the argument of the recursion to a field of the examined edge")
+	case recField != types.Object(upField):
+		dbad = append(dbad, fmt.Sprintf("the recursion follows `%s`, not the field scanned from column up (%s)", pf.Str(recArg), upField.Name()))
 	}
 	if rootField != nil && rootField != types.Object(upField) {
 		dbad = append(dbad, fmt.Sprintf("the root sentinel is compared with field %s, not %s", rootField.Name(), upField.Name()))
 	}
-	if len(dbad) > 0 {
+	switch {
+	case len(dbad) > 0:
 		oD.Violation("%s", strings.Join(dbad, "; "))
-	} else {
+	case len(dmurky) > 0:
+		oD.Undecided("%s", strings.Join(dmurky, "; "))
+	default:
 		oD.OK("WHERE down=? bound to the id; recursion and root test on field %s", upField.Name())
 	}
 }
